@@ -51,6 +51,22 @@ def critical_mapping(ctx, rep, rule):
             if v is None:
                 v = st.facts.get(crit2)
             return v
+        is_false = T.mk(('cmp', 'is', RUNRES, T.FALSE))
+
+        def possible(st, ok=None, critical=None):
+            """can this path coexist with `the inherited verdict is ok` / `self is critical`?"""
+            y = st
+            if ok is not None:
+                for t, v in ((is_true, ok), (RUNRES, ok), (is_false, not ok)):
+                    y = y.assume(t, v)
+                    if y is None:
+                        return False
+            if critical is not None:
+                for t in (crit, crit2):
+                    y = y.assume(t, critical)
+                    if y is None:
+                        return False
+            return True
         for e in an.events('RET'):
             n += 1
             val = e.data['val']
@@ -60,7 +76,7 @@ def critical_mapping(ctx, rep, rule):
             rep.check(good, rule, site + " carries the inherited verdict", fn,
                       "`%s` returns %s" % (src(stmt_of(e.node)), T.show(val, 3)),
                       "the nested scheduler's result is not the verdict of its own run", trace(e.st))
-            rep.check(verdict_ok(e.st) is True or is_crit(e.st) is False, rule,
+            rep.check(not possible(e.st, ok=False, critical=True), rule,
                       site + " only on success or when not critical", fn,
                       "`%s` reachable with a failed run of a critical scheduler" % src(stmt_of(e.node)),
                       "a critical nested scheduler that fails returns instead of raising: the failure is "
@@ -70,7 +86,7 @@ def critical_mapping(ctx, rep, rule):
             kind = e.data['exc']
             site = "%s raise" % e.where
             st = e.st
-            rep.check(verdict_ok(st) is False and is_crit(st) is True, rule,
+            rep.check(not possible(st, ok=True) and not possible(st, critical=False), rule,
                       site + " only for a failed critical scheduler", fn,
                       "`%s` reachable after a successful run or for a non-critical scheduler" % src(stmt_of(e.node)),
                       "a nested scheduler raises although its run succeeded or although it is not critical",
